@@ -568,6 +568,10 @@ impl<'a> Run<'a> {
                 .collect();
             cgen.sort();
             o.insert("cgen".into(), json!(cgen));
+            // the engine's own record of which jobs were started (it decides what new_history keeps)
+            let mut est: Vec<String> = snap.jobs.iter().filter(|j| j.was_started).map(|j| j.job_id.clone()).collect();
+            est.sort();
+            o.insert("estarted".into(), json!(est));
             for (u, d, r, i) in snap.edges.iter() {
                 ereq.insert(format!("{}!!!{}", u, d), json!(r));
                 einv.insert(format!("{}!!!{}", u, d), json!(i));
@@ -576,6 +580,7 @@ impl<'a> Run<'a> {
             o.insert("phase".into(), json!("Dead"));
             o.insert("qlen".into(), json!(0));
             o.insert("cgen".into(), json!([]));
+            o.insert("estarted".into(), json!([]));
         }
         o.insert("outs".into(), Value::Object(outs));
         o.insert("jst".into(), Value::Object(jst));
